@@ -788,7 +788,10 @@ func randomVal(r *rand.Rand, k *bkind) bval {
 }
 
 // constants (must be representable as a Go constant of the kind)
-func constSet(r *rand.Rand, k *bkind, tier string) []bval {
+func constSet(r *rand.Rand, k *bkind, tier string) []bval { return constSet2(r, k, tier, false) }
+
+// constSet2: allPow2 adds every power of two (and its negation) of the kind
+func constSet2(r *rand.Rand, k *bkind, tier string, allPow2 bool) []bval {
 	var out []bval
 	switch k.cat {
 	case catBool:
@@ -802,7 +805,7 @@ func constSet(r *rand.Rand, k *bkind, tier string) []bval {
 		} else {
 			us = append(us, 1<<(w-1), ^uint64(0), ^uint64(0)-1, 1<<(w-1)+1)
 		}
-		if tier != "quick" {
+		if tier != "quick" && allPow2 {
 			for i := uint(3); i < w; i++ {
 				us = append(us, 1<<i)
 				if signed {
@@ -1195,7 +1198,7 @@ func c01gen1(r *rand.Rand, tier string, emit func(string)) {
 							cs = append(cs, bval{u: u})
 						}
 					} else {
-						cs = g.trimConsts(ck, constSet(r, yk, tier), 12)
+						cs = g.trimConsts(ck, constSet2(r, yk, tier, op == "MUL" || op == "QUO" || op == "REM"), 12)
 					}
 					for _, c := range cs {
 						if ck.lit(c) == "" {
@@ -1205,7 +1208,7 @@ func c01gen1(r *rand.Rand, tier string, emit func(string)) {
 							continue // division by constant zero: rejected by Go and by gomacro alike
 						}
 						cc := constClass(ck, c)
-						full := (op == "MUL" || op == "QUO" || op == "REM") && (cc == "cpow2" || cc == "cnegpow2") || !g.quick
+						full := (op == "MUL" || op == "QUO" || op == "REM") && (cc == "cpow2" || cc == "cnegpow2") || !g.quick && (cc != "cother" || g.r.Intn(3) == 0)
 						vals := g.singles(xk, full)
 						g.chunk(chunkN, vals, func(p []string) {
 							g.line("bin", op, xk, ck, "vc", g.nextStor(), ck.encIn(c), p)
@@ -1214,7 +1217,7 @@ func c01gen1(r *rand.Rand, tier string, emit func(string)) {
 				}
 				// const-var
 				{
-					cs := g.trimConsts(xk, constSet(r, xk, tier), 12)
+					cs := g.trimConsts(xk, constSet2(r, xk, tier, op == "MUL"), 12)
 					if isShiftOp(op) && (g.quick || yi > 0) && len(cs) > 4 {
 						n := 4
 						if !mainPair {
@@ -1231,7 +1234,7 @@ func c01gen1(r *rand.Rand, tier string, emit func(string)) {
 							continue
 						}
 						cc := constClass(xk, c)
-						full := op == "MUL" && (cc == "cpow2" || cc == "cnegpow2") || !g.quick
+						full := op == "MUL" && (cc == "cpow2" || cc == "cnegpow2") || !g.quick && (cc != "cother" || g.r.Intn(3) == 0)
 						var vals []string
 						if isShiftOp(op) {
 							for _, v := range shiftCounts(yk, xk.bits) {
@@ -1260,7 +1263,7 @@ func c01gen1(r *rand.Rand, tier string, emit func(string)) {
 					n := 0
 					limit := 12
 					if !g.quick {
-						limit = 400
+						limit = 150
 					}
 					perm := r.Perm(len(csx) * len(csy))
 					for _, pi := range perm {
